@@ -92,6 +92,31 @@ def detect_renames(raw_fns, table, profile):
     for (crate, simple), (olds, fs) in by_simple.items():
         if len(olds) == 1 and len(fs) == 1 and not fs[0].d.get('trait_item') and not olds[0].startswith('<'):
             out[fs[0].name] = olds[0]
+    # renamed and touched at the same time: recognised by its place in the call graph.  A function the table knows
+    # used to call exactly one function that no longer exists and now calls exactly one function the table does not
+    # know: that is the same helper under a new name (all such callers must agree).
+    left_new = {f.name: f for f in new if f.name not in out}
+    left_missing = set(n for n in missing if n not in out.values())
+    votes = {}
+    for f in raw_fns:
+        r = ref.get(out.get(f.name, f.name))
+        if not r or 'callees' not in r:
+            continue
+        cur = {t.get('resp') or t.get('calleep') for b in f.blocks for t in [b['term']] if t['k'] == 'call' and t.get('local')}
+        cur = {out.get(c, c) for c in cur if c}
+        gone = [c for c in r['callees'] if c in left_missing and c not in cur]
+        came = [c for c in cur if c in left_new]
+        if len(gone) == 1 and len(came) == 1:
+            votes.setdefault(came[0], set()).add(gone[0])
+    back = {}
+    for n_, olds in votes.items():
+        if len(olds) == 1:
+            back.setdefault(next(iter(olds)), set()).add(n_)
+    for old_, news in back.items():
+        if len(news) == 1:
+            n_ = next(iter(news))
+            if not left_new[n_].d.get('trait_item') and left_new[n_].crate == ref[old_]['crate']:
+                out[n_] = old_
     return out
 
 
